@@ -93,7 +93,7 @@ pub fn naming_of(rec: &J) -> Naming {
 /// through the case-folded key of the first spelling).
 pub fn check_rename(rec: &J) -> Verdict {
     let st = rec["st"].as_str().unwrap();
-    if st == "fuel" || st == "unspec" {
+    if st == "fuel" || st == "unspec" || st == "blowup" {
         return Verdict::skip("not in the specified region");
     }
     let naming = naming_of(rec);
@@ -189,6 +189,9 @@ pub fn outcome(rec: &J) -> Verdict {
 
 pub fn check(rec: &J) -> Verdict {
     let st = rec["st"].as_str().unwrap();
+    if st == "blowup" {
+        return Verdict::skip("executing it needs unbounded time or memory");
+    }
     if st == "fuel" {
         return Verdict::skip("model ran out of fuel: not executed");
     }
